@@ -25,3 +25,9 @@ mod c07_long;
 mod c08_const;
 #[cfg(kani)]
 mod c10_ctor;
+#[cfg(kani)]
+mod c09_comb;
+#[cfg(kani)]
+mod c11_iface;
+#[cfg(kani)]
+mod c11_set;
